@@ -184,6 +184,18 @@ def run(rep: common.Report, tier: str, seed: int, replay=None) -> int:
                 rep.violation(f"non-in-place {nm} returns an object aliasing the original", case)
             if not np.array_equal(B.points[0], B.points[-1]) or shoelace(B.points) < 0:
                 rep.violation(f"result of {nm} is not stored closed and counter-clockwise", {**case, "fx": fx, "fy": fy})
+        # identity parameters (exact zeros / ones) are ordinary parameters: still a new, independent object
+        for nm, B in (("translate(0, 0)", A.translate(0.0, 0.0)), ("translate()", A.translate()), ("translate(-0.0, 0)", A.translate(-0.0, 0)),
+                      ("rotate(0)", A.rotate(0.0)), ("rotate(360)", A.rotate(360.0)), ("scale(1, 1)", A.scale(1.0, 1.0)),
+                      ("copy()", A.copy())):
+            if B is A or np.shares_memory(B.points, A.points):
+                rep.violation(f"non-in-place {nm} returns the original object / aliases its vertices", case)
+            elif nm != "rotate(360)" and not np.array_equal(B.points, A.points):
+                rep.violation(f"{nm} changed the vertices", case)
+            B.scale(2.0, 3.0, inplace=True)
+            B.set_name("changed")
+        if not np.array_equal(A.points, before) or A.name == "changed":
+            rep.violation("modifying the result of a non-in-place operation changed the original polygon", case)
         if not np.array_equal(A.points, before):
             rep.violation("a non-in-place operation mutated the original polygon", case)
         c_, s_ = math.cos(math.radians(deg)), math.sin(math.radians(deg))
